@@ -58,7 +58,8 @@ func drawStream(t *rapid.T, dpool []*dialectInfo) *streamCase {
 	sc.wholeRejects = sc.cleanly && rapid.Bool().Draw(t, "complete_refused_frames_between")
 	nseg := rapid.IntRange(1, 8).Draw(t, "nseg")
 	// the sender's clock: anywhere, including a counter that started at boot a moment ago
-	ts := uint64(rapid.OneOf(rapid.Uint64Range(2000000, 1<<40), rapid.Uint64Range(1, 999999), rapid.Uint64Range(0, 3000000)).Draw(t, "ts0"))
+	ts := uint64(rapid.OneOf(rapid.Uint64Range(2000000, 1<<40), rapid.Uint64Range(1, 999999), rapid.Uint64Range(0, 3000000),
+		rapid.Uint64Range(1<<46, 1<<48-2000000)).Draw(t, "ts0")) // ... or one that runs years ahead of the receiver's
 	sc.ts0 = ts
 	forceDialect := false
 	mkValid := func() (ref.Frame, string) {
@@ -410,6 +411,9 @@ func checkStreamSizes(t *rapid.T, sc *streamCase, rec *evid.Rec, fixedSizes []in
 		if sc.key != nil && sc.ts0 < 1000000 {
 			cls = append(cls, "keyed-sender-clock-below-the-window-length")
 		}
+		if sc.key != nil && sc.ts0 >= 1<<46 {
+			cls = append(cls, "keyed-sender-clock-years-ahead")
+		}
 		if sc.key != nil {
 			cls = append(cls, "keyed")
 		}
@@ -431,7 +435,7 @@ func checkStreamSizes(t *rapid.T, sc *streamCase, rec *evid.Rec, fixedSizes []in
 
 func TestC05Streams(t *testing.T) {
 	rec := evid.New(t, "C05", "streams from a grammar (valid raw/dialect/signed frames, truncated frames, damaged checksum/signature/flags, junk with and without markers, glued frames) fed whole, byte-wise, in generated chunks and with a transport error injected at a generated offset; oracles: no panic, progress, consumed-span exactness against the reference, identical (kind,span) sequences across feedings, completeness on clean streams, the transport's own error surfaces; non-trivial = a delivered frame straddles a read boundary, or markers inside noise, or a truncated frame; distinct by hash of (stream, chunking)")
-	rec.Require("frame-straddles-read-boundary", "seg-markerjunk", "seg-truncated", "clean-stream", "keyed", "dialect", "fault-injected", "seg-badcrc", "seg-badsig", "seg-v1-wrong-length", "keyed-sender-clock-below-the-window-length", "seg-refused-under-key")
+	rec.Require("frame-straddles-read-boundary", "seg-markerjunk", "seg-truncated", "clean-stream", "keyed", "dialect", "fault-injected", "seg-badcrc", "seg-badsig", "seg-v1-wrong-length", "keyed-sender-clock-below-the-window-length", "seg-refused-under-key", "keyed-sender-clock-years-ahead")
 	dpool := pool(t)
 	evid.Check(t, rec, evid.N(40000, 150000), func(t *rapid.T) {
 		drawBufSize(t)
